@@ -482,7 +482,21 @@ func runC20(c *core.Ctx) {
 			idleFrames["/recover/"+core.FName(f)] = true
 		}
 	}
+	// the idle event is delivered through HandlerContext.Trigger: its own recover frame is part of the route
+	if pr := resolvePipe(p); len(pr.errs) == 0 {
+		if tf := p.DeclMethod(pr.ctxT, "Trigger"); tf != nil {
+			for _, f := range core.WithAnon(tf) {
+				idleFrames["/recover/"+core.FName(f)] = true
+			}
+			for _, f := range calleesWithin(p, tf, 2) {
+				idleFrames["/recover/"+core.FName(f)] = true
+			}
+		}
+	}
 	importObligations(c, runC07, "R5", func(o *core.Obligation) bool {
+		if strings.Contains(o.Key, "ctx-member/Trigger") {
+			return true
+		}
 		if strings.Contains(o.Key, "/recover/") {
 			if strings.Contains(o.Key, "IdleHandler") {
 				return true
@@ -496,6 +510,45 @@ func runC20(c *core.Ctx) {
 		}
 		return strings.Contains(o.Key, "timer-trigger") || strings.Contains(o.Key, "recover-not-deferred") || strings.Contains(o.Key, "root/AfterFunc")
 	})
+	// "at least the configured idle time": the duration the handlers compare with is the one the user configured
+	c.Rule("R8", "the idle-duration field is written only by the constructor, with its Duration parameter unchanged", 2)
+	for _, ir := range idles {
+		tn := ir.t.Obj().Name()
+		c.Instance("R8")
+		nst := 0
+		good, why, pos := true, "", ""
+		for _, fn := range p.Funcs {
+			core.AllInstrs(fn, func(in ssa.Instruction) {
+				st, ok := in.(*ssa.Store)
+				if !ok {
+					return
+				}
+				f, _ := core.FieldOf(st.Addr)
+				if f != ir.idleF {
+					return
+				}
+				nst++
+				top := core.Outermost(fn)
+				if top.Signature.Recv() != nil {
+					good, why, pos = false, "the idle duration is rewritten after construction by "+core.FName(top), p.InstrPos(in)
+					return
+				}
+				v := stripConv(core.Unwrap(st.Val))
+				pi := core.ParamOf(fn, v)
+				if pi < 0 || !core.NamedIs(fn.Params[pi].Type(), "time", "Duration") {
+					good, why, pos = false, "the constructor stores "+v.String()+" instead of its Duration parameter (rounded, scaled or replaced: the idle event fires earlier or later than configured)", p.InstrPos(in)
+				}
+			})
+		}
+		if nst == 0 {
+			good, why = false, "no initialisation of the idle-duration field found"
+		}
+		c.Check(good, "R8", tn+"/idle-duration/unchanged", pos, "initialised once, from the constructor's parameter", why)
+	}
+	// "never after inactive" presupposes the lifecycle order: the channel is handed out (and can be closed) only
+	// after the active event, which arms the timers, has been delivered
+	c.Rule("R7", "the channel is released to its creator only after the active event was delivered (shared with C05-R4)", 1)
+	importObligations(c, runC05, "R7", func(o *core.Obligation) bool { return o.Rule == "R4" })
 }
 
 // cellOf: addr is (a captured reference to) a local cell of function top; returns the Alloc.
